@@ -517,6 +517,7 @@ pub fn run(tier: Tier, seed: u64) -> i32 {
         ("lists", &uni, &scheme, &filters, &lstates),
         ("nolists", &nolists_uni, &nolists_scheme, &nolists_filters, &nolists_states),
     ];
+    let canonical_layout = std::sync::atomic::AtomicU64::new(0);
     for (u_tag, uni, scheme, filters, lstates) in variants {
     let (uni, scheme) = (uni.clone(), scheme.clone());
     par_for(contexts.len(), ncpu(), |ci| {
@@ -530,9 +531,20 @@ pub fn run(tier: Tier, seed: u64) -> i32 {
                 let mut ctx = real_ctx(&scheme, m);
                 install_sets(&scheme, &mut ctx, &uni, lists);
                 let text = serde_json::to_string(&ctx).map_err(|e| e.to_string()).unwrap_or_else(|e| format!("<serialize error {e}>"));
-                let want_text = expected_doc(&uni, m, lists).print();
-                if text != want_text {
-                    problems.push(format!("serialisation is {text}, expected {want_text}"));
+                // the statement does not fix the document's layout: it must be JSON and, read with the
+                // documented encodings, denote exactly this context (values and matcher state)
+                match parse_j(&text).map(|j| denote_ctx(&uni, &j)) {
+                    Some(Ok((dm, dl))) => {
+                        let norm = |l: &MLists| -> MLists { l.iter().filter(|(_, s)| !s.is_empty()).map(|(k, v)| (*k, v.clone())).collect() };
+                        if dm != *m || norm(&dl) != norm(lists) {
+                            problems.push(format!("serialisation does not denote the context: {text}"));
+                        }
+                    }
+                    Some(Err(why)) => problems.push(format!("serialisation cannot be read back ({why}): {text}")),
+                    None => problems.push(format!("serialisation is not valid JSON: {text}")),
+                }
+                if text == expected_doc(&uni, m, lists).print() {
+                    canonical_layout.fetch_add(1, std::sync::atomic::Ordering::Relaxed);
                 }
                 // value-tree and C API serialisations agree with the text
                 match serde_json::to_value(&ctx) {
@@ -600,6 +612,8 @@ pub fn run(tier: Tier, seed: u64) -> i32 {
     });
 
     }
+    run.set("serialisations_in_the_reference_layout", json!(canonical_layout.load(std::sync::atomic::Ordering::Relaxed)));
+
     // ---- bad JSON: complete single-mutation neighbourhood of a few documents' trees --------------------------
     let mut seeds_docs: Vec<(MCtx, MLists)> = Vec::new();
     {
